@@ -13,6 +13,14 @@ import (
 // exprKey renders an expression structurally with local roots erased to their names
 // (field paths keep their selectors): seq.next -> "seq.next", len(q.heap) -> "len(q.heap)".
 func exprKey(e ast.Expr) string {
+	if e == nil {
+		return "?"
+	}
+	if keySubst != nil {
+		if s, ok := keySubst[ast.Unparen(e)]; ok {
+			return s
+		}
+	}
 	switch x := ast.Unparen(e).(type) {
 	case *ast.Ident:
 		return x.Name
